@@ -10,18 +10,22 @@ FLAGS = {'n1': '-n1', 'n2': '-n2', 'n3': '-n3', 'pmin': '-pmin', 'pmax': '-pmax'
          'lq': '-lq', 'uq': '-uq', 'llq': '-llq', 'lt': '-lt', 'luq': '-luq', 'skew': '-skew', 'twopl': '-twopl'}
 
 
+FLAGS_ALL = dict(FLAGS, numinst='-numinst', o='-o', mp='-mp')
+
+
 def argv_of(rec, outdir):
-    a = ['-numinst', str(rec['numinst']), '-o', outdir, '-mp', rec['mp']]
+    nm = rec.get('names') or FLAGS_ALL        # the spelling of every option as exported by the specification
+    a = [nm['numinst'], str(rec['numinst']), nm['o'], outdir, nm['mp'], rec['mp']]
     for o in sorted(rec['given']):
         v = rec['v'][o]
         if o == 'twopl':
-            a.append('-twopl')
+            a.append(nm[o])
         elif o in ('t1', 't2'):
-            a += [FLAGS[o], repr(v / 20.0 + (rec.get('eps') or {}).get(o, 0) * 2.0 ** -40)]
+            a += [nm[o], repr(v / 20.0 + (rec.get('eps') or {}).get(o, 0) * 2.0 ** -40)]
         elif o == 'skew':
-            a += [FLAGS[o], repr(v / 2.0)]
+            a += [nm[o], repr(v / 2.0)]
         else:
-            a += [FLAGS[o], str(v)]
+            a += [nm[o], str(v)]
     return a
 
 
